@@ -290,3 +290,7 @@ mod tests {
         assert_eq!(result.leap_indicator, None);
     }
 }
+
+#[cfg(feature = "pendulum_project_ntpd_rs_verif")]
+#[path = "/verif/hooks/ntp-proto/algorithm_kalman_combiner.rs"]
+pub mod verif_hooks;
